@@ -1,4 +1,5 @@
 """C17 -- composed query output fits the stated size (partial: bounded writes, estimates, integer guards)."""
+from .. import pp
 from ..frontend import fmt_loc, AnalysisBroken
 from ..ir import call_target, strip_casts, const_value, manager_call
 from ..cfgutil import dominators, expr_key
@@ -40,6 +41,46 @@ def escape_factor(ctx, suf):
     return fac, alphabet
 
 
+def _src_type(e):
+    """type of an argument before implicit integral conversions"""
+    n = e
+    while n is not None and n.k == 'cast' and not (n.x and n.x.get('explicit')) and n.v in ('IntegralCast', 'LValueToRValue', 'NoOp'):
+        n = n.c[0]
+    return ((n.x or {}).get('dty') if n is not None and n.x and n.x.get('dty') else (n.ty if n is not None else '')) or ''
+
+
+def rule_flag_forwarding(ctx, chk):
+    prog, irp = ctx.prog, ctx.irp
+    n = 0
+    for name, f in sorted(irp.funcs.items()):
+        if not (f.unit or '').endswith('UriQuery.c'):
+            continue
+        for b in f.blocks:
+            for i in b.ins:
+                if i.op != 'call':
+                    continue
+                t = call_target(i)
+                decl = prog.funcs.get(t) or (prog.decls.get(t) or [None])[0]
+                if decl is None:
+                    continue
+                params = [c for c in decl.c if c.k == 'parm']
+                for p, a in zip(params, i.args):
+                    pt = (p.ty or '').replace('const ', '').strip()
+                    if pt not in ('UriBool', 'UriBreakConversion'):
+                        continue
+                    at = _src_type(a).replace('const ', '').strip()
+                    cv = const_value(a, prog)
+                    n += 1
+                    if pt == 'UriBreakConversion':
+                        ok = 'UriBreakConversion' in at or 'UriBreakConversionEnum' in at or (cv is not None and at not in ('UriBool',))
+                    else:
+                        ok = 'UriBreakConversion' not in at
+                    chk.add('flag-forwarding', 'flag:%s->%s/%s' % (base_name(name), base_name(t), p.v) if ok else
+                            'flag:%s->%s/%s:%s' % (base_name(name), base_name(t), p.v, at), ok, i.loc,
+                            '%s passes `%s` (%s) for parameter %s (%s) of %s' % (name, pp.expr(a)[:40], at or '?', p.v, pt, t), func=name)
+    return n
+
+
 def run(ctx, chk):
     prog, irp = ctx.prog, ctx.irp
     chk.explanation = ('Partial, structural decision of C17. Decided: the compose engine is executed symbolically (write mode '
@@ -60,6 +101,10 @@ def run(ctx, chk):
     chk.rule('int-guard', 'every int-typed product or sum of lengths in the compose engine is proved not to exceed INT_MAX from '
              'the dominating comparisons (otherwise the function has returned the too-large code)', floor=8)
     chk.rule('query-alphabet', 'characters the composer can emit are legal in a URI query', floor=2)
+    chk.rule('flag-forwarding', 'every call made from the query unit passes an option of enumeration type (UriBreakConversion) where '
+             'the callee expects that enumeration and a UriBool where it expects a UriBool: the compiler converts one into the other '
+             'silently, and a swapped pair makes keys and values be unescaped under different options', floor=8)
+    rule_flag_forwarding(ctx, chk)
     chk.rule('item-count', 'uriAppendQueryItem increments *itemCount exactly on the paths that leave a node linked', floor=4)
     INTMAX = prog.macros.get('INT_MAX', 2147483647)
     toolarge = prog.macros.get('URI_ERROR_OUTPUT_TOO_LARGE')
